@@ -1,3 +1,4 @@
+import re
 """Shared analysis helpers on top of mir.Body: atomic sites, summaries, guards."""
 from collections import defaultdict
 
@@ -592,3 +593,24 @@ def const_path_reach(b, start, stops, unwind=False, limit=4000):
         for y in succs:
             work.append((y, e2))
     return reached
+
+
+# names of generic type parameters that stand for a counted pointer (bounded by RefCnt): collected from the receivers of RefCnt
+# trait calls in the crate at hand, so that `fn help<Ptr: RefCnt, ..>` is read like `fn help<T: RefCnt, ..>`
+REFCNT_PARAMS = {'T', 'Self'}
+
+
+def note_refcnt_params(crate):
+    for b in crate.bodies:
+        for bb, t in b.calls():
+            c = t['callee']
+            if (c.get('trait') or '').endswith('ref_cnt::RefCnt') and c.get('self_is_param') and re.fullmatch(r'[A-Za-z_][A-Za-z0-9_]*', c.get('self_ty') or ''):
+                REFCNT_PARAMS.add(c['self_ty'])
+
+
+def is_refcnt_param(ty):
+    return (ty or '').strip() in REFCNT_PARAMS
+
+
+def mentions_refcnt_param(ty):
+    return any(re.search(r'(^|[<(, &])%s($|[>), ])' % re.escape(p_), ty or '') for p_ in REFCNT_PARAMS)
